@@ -115,6 +115,17 @@ func checkC12(a *checkArgs, r *Result) error {
 		c := rdCase{Op: "read-chain", Kind: "xz", Name: fmt.Sprintf("lead=%d streams=%v single=%v (%s)", lead, names, single, why), Stream: hxe(in), Single: single}
 		jobs = append(jobs, job{c, in, want, ok, why, k >= 2 || len(in) != firstEnd})
 	}
+	// SingleStream with exactly ONE byte after the stream (zero and non-zero)
+	for i, b := range pool {
+		if i >= 4 || b.Kind != "xz" {
+			continue
+		}
+		for _, tb := range []byte{0, 0x5a} {
+			in := append(append([]byte{}, b.Stream...), tb)
+			c := rdCase{Op: "read-chain", Kind: "xz", Name: fmt.Sprintf("single stream + one trailing byte %#x", tb), Stream: hxe(in), Single: true}
+			jobs = append(jobs, job{c, in, b.Content, false, "SingleStream and one byte follows the stream", true})
+		}
+	}
 	var wg sync.WaitGroup
 	sem := make(chan struct{}, 16)
 	for _, j := range jobs {
@@ -140,6 +151,24 @@ func checkC12(a *checkArgs, r *Result) error {
 			}
 			if !j.wantOK && j.c.Single && !g.OpenErr && !bytes.Equal(g.Out, j.want) && len(j.want) > 0 {
 				r.Violate("counterexample", "single-stream-content", j.c, "SingleStream did not yield exactly the first stream's content before the error")
+			}
+			// the verdict must not depend on how the source hands out its bytes (one at a time, short reads, the
+			// last bytes together with io.EOF)
+			for _, mode := range []int{3, 4, 1} {
+				if mode == 1 && len(j.in) > 20000 {
+					continue
+				}
+				src := &fragReader{data: append([]byte{}, j.in...), mode: mode, rng: rand.New(rand.NewSource(int64(len(j.in))))}
+				t := goXzReadSrc(src, j.c.DictCap, j.c.Single, 30*time.Second)
+				r.Inc(fmt.Sprintf("fragmented_source_mode%d", mode))
+				tclean := t.Err == "EOF" && !t.OpenErr
+				if tclean != clean || (clean && !bytes.Equal(t.Out, g.Out)) || t.Err == "Panic" {
+					fc := j.c
+					fc.Name += fmt.Sprintf(" [source fragmentation %d]", mode)
+					r.Violate("counterexample", fmt.Sprintf("verdict-depends-on-source-fragmentation single=%v mode=%d", j.c.Single, mode), fc,
+						fmt.Sprintf("whole source: %s %s (%d bytes); fragmented source (mode %d: 1 byte-wise, 3 data with EOF, 4 short reads + data with EOF): %s %s (%d bytes)", g.Err, g.Msg, len(g.Out), mode, t.Err, t.Msg, len(t.Out)))
+					break
+				}
 			}
 			m, err := modelRead_(dp, j.c, j.in, false)
 			if err != nil {
